@@ -11,6 +11,8 @@ macro_rules! registry {
             "C22" => dispatch!($action, props::c22::C22, $ctx, $path),
             "C23" => dispatch!($action, props::c23::C23, $ctx, $path),
             "C34" => dispatch!($action, props::c34::C34, $ctx, $path),
+            "C03" => dispatch!($action, props::c03::C03, $ctx, $path),
+            "C21" => dispatch!($action, props::c21::C21, $ctx, $path),
             _ => {
                 eprintln!("unknown property {}", $id);
                 2
